@@ -39,13 +39,15 @@ def adj_configs(tier):
     """operands of every adjactor class: alone, in pairs (every class x every class), nested in threes"""
     all3 = "{" + ", ".join(k.strip("{}") for k in NEST3) + "}"
     if tier == "thorough":
+        # (many moderate jobs: the cases of a job are held in memory while it is replayed)
+        gen1 = ['{"graph"}', '{"interval"}', '{"indexset2"}', '{"dyn"}']
         out = [adj_cfg(1, GEN, "", "", 3, 0, 3, 2, 0), adj_cfg(1, RIG, "", "", 4, 0, 16, 0, 0)]
-        out += [adj_cfg(2, k1, GEN, "", 2, 2, 3, 2, 0, 3) for k1 in ('{"graph"}', '{"interval"}', '{"indexset2"}', '{"dyn"}')]
-        out += [adj_cfg(2, GEN, GEN, "", 2, 2, 2, 1, 1, 3), adj_cfg(2, GEN, GEN, "", 1, 3, 2, 1, 0, 3)]
-        out += [adj_cfg(2, GEN, RIG, "", 2, 4, 16, 2, 1), adj_cfg(2, RIG, GEN, "", 2, 4, 2, 2, 0, 3), adj_cfg(2, RIG, RIG, "", 4, 8, 32, 0, 1, 1)]
-        out += [adj_cfg(3, k1, all3, all3, 2, 2, 2, 1, 0, 3) for k1 in NEST3]
-        out += [adj_cfg(3, k1, all3, all3, 1, 2, 2, 2, 0, 3) for k1 in NEST3]
-        out += [adj_cfg(3, all3, all3, all3, 1, 1, 2, 2, 1, 3)]
+        out += [adj_cfg(2, k1, k2, "", 2, 2, 3, 2, 0) for k1 in gen1 for k2 in gen1]
+        out += [adj_cfg(2, k1, GEN, "", 2, 2, 2, 1, 1) for k1 in gen1] + [adj_cfg(2, GEN, GEN, "", 1, 3, 2, 1, 0)]
+        out += [adj_cfg(2, GEN, RIG, "", 2, 4, 16, 2, 1), adj_cfg(2, RIG, GEN, "", 2, 4, 2, 2, 0), adj_cfg(2, RIG, RIG, "", 4, 8, 32, 0, 1, 1)]
+        out += [adj_cfg(3, k1, all3, all3, 2, 2, 1, 1, 0) for k1 in NEST3]
+        out += [adj_cfg(3, k1, k2, all3, 1, 2, 2, 2, 0) for k1 in NEST3 for k2 in NEST3[:2]] + [adj_cfg(3, all3, NEST3[2], all3, 1, 2, 2, 2, 0)]
+        out += [adj_cfg(3, all3, all3, all3, 1, 1, 2, 2, 1)]
     else:
         out = [adj_cfg(1, GEN, "", "", 2, 0, 3, 2, 0, 1), adj_cfg(1, RIG, "", "", 4, 0, 16, 0, 0, 1)]
         out += [adj_cfg(2, GEN, GEN, "", 1, 2, 3, 2, 0, 3), adj_cfg(2, GEN, GEN, "", 2, 2, 2, 1, 0), adj_cfg(2, GEN, GEN, "", 1, 1, 2, 2, 1, 1)]
@@ -96,9 +98,9 @@ def run_tlc_jobs(chk, jobs, consume=None):
         with open(os.path.join(vlib.SPEC, cfg), "w") as f:
             f.write("SPECIFICATION Spec\nCONSTANTS %s\nINVARIANTS %s\nCHECK_DEADLOCK FALSE\n" % (consts, invs))
         try:
-            r = vlib.tlc(mod, cfg, workers=workers, timeout=2400, xmx="4g", tag="C19_%d" % k)
+            r = vlib.tlc(mod, cfg, workers=workers, timeout=2400, xmx="2g" if tag == "a" else "4g", tag="C19_%d" % k)
             if tag == "a" and consume is not None and r.printed and not r.violation:
-                r.ncases = len(r.printed)
+                r.out = ""
                 consume(job, r.printed)
                 r.printed = [None]
             return r
